@@ -187,6 +187,9 @@ static int do_create(int be, int k, int m, int hd, int w, int ct, int nullargs)
     memset(&a, 0, sizeof a);
     a.k = k; a.m = m; a.hd = hd; a.w = w; a.ct = ct;
     ev_begin("Create"); ev_cfg(be, k, m, hd, ct); ev_int("w", w); ev_int("nullargs", nullargs); ev_int("l0", l0);
+    /* wnat: the caller asked for the backend's own word size (or none): such a create must succeed in a sweep; with
+     * any other word size the configuration may be refused (then the sweep has nothing to do) */
+    ev_int("wnat", w == 0 || w == (be == 6 ? 16 : (be == 3 || be == 0) ? 32 : 8));
     ev_call();
     d = liberasurecode_instance_create((ec_backend_id_t)be, nullargs ? NULL : &a);
     ev_int("rc", d); ev_int("l1", verif_live); ev_int("ff", verif_foreign_free - ff);
